@@ -5,6 +5,7 @@ mod gen;
 mod iofault;
 mod model;
 mod monitors;
+mod mutate;
 mod rng;
 mod selfcheck;
 mod spec;
